@@ -412,7 +412,7 @@ def intersect1d(ar1, ar2, assume_unique=False, return_indices=False):
         return_indices=return_indices,
     )
     if return_indices:
-        return retv
+        return (retv[0] * ar1.units, *retv[1:])
     else:
         return retv * ar1.units
 
